@@ -419,11 +419,14 @@ func runCheck(o *checkOpts, spec *CheckSpec, doSelftest bool) int {
 					continue
 				}
 				rep := &violationReport{unit: ur.unit, v: v, path: p}
-				if v.Kind == "unsafe" || v.Kind == "race" || v.Kind == "deadlock" && v.Threads || v.Threads {
+				if v.Kind == "unsafe" || v.Kind == "race" || v.Kind == "pool" || v.Kind == "deadlock" && v.Threads || v.Threads {
 					rep.engineOnly, rep.confirm = true, true
 					rep.native = "engine-confirmed only: the counterexample is a goroutine schedule / happens-before fact that cannot be forced natively (the engine's replay of the recorded decisions is deterministic)"
 					if v.Kind == "unsafe" {
 						rep.native = "engine-confirmed only: an access outside the slice that lands inside its backing array is invisible to a native run"
+					}
+					if v.Kind == "pool" {
+						rep.native = "engine-confirmed only: a sync.Pool holding one object twice shows only when two goroutines draw from it at once"
 					}
 				} else {
 					to := 60 * time.Second
